@@ -459,7 +459,7 @@ func descFromV1(t *dynamodb.TableDescription) *TableDesc {
 	d := &TableDesc{Name: aws.StringValue(t.TableName), ItemCount: aws.Int64Value(t.ItemCount), Indexes: map[string]string{}, IdxCount: map[string]int64{}}
 	d.Keys = schemaFromV1(t.KeySchema)
 	for _, g := range t.GlobalSecondaryIndexes {
-		n := aws.StringValue(g.IndexName)
+		n := uniqueIndexName(d, aws.StringValue(g.IndexName))
 		d.Indexes[n] = "gsi " + schemaFromV1(g.KeySchema)
 		d.IdxCount[n] = -1
 		if g.ItemCount != nil {
@@ -467,7 +467,7 @@ func descFromV1(t *dynamodb.TableDescription) *TableDesc {
 		}
 	}
 	for _, l := range t.LocalSecondaryIndexes {
-		n := aws.StringValue(l.IndexName)
+		n := uniqueIndexName(d, aws.StringValue(l.IndexName))
 		d.Indexes[n] = "lsi " + schemaFromV1(l.KeySchema)
 		d.IdxCount[n] = -1
 		if l.ItemCount != nil {
